@@ -107,7 +107,11 @@ struct SlotInfo {
 /// One call of the API, up to the values inside the proofs ("transition class").
 #[derive(Clone, PartialEq, Eq, Hash, PartialOrd, Ord, Debug)]
 enum Call {
-    L { x: ShapeId, cache: Option<NlProv>, p: usize },
+    /// `reuse`: 0 = the circuit and verifier_result are built for `x` itself at every call and only
+    /// the prep is carried over (`cache`); 1 = `L-reuse`: circuit + verifier_result + prep built
+    /// once for ANOTHER proof of the same shape id (the first value instance) and used unchanged;
+    /// 2 = the control: built once for the very proof that is then proved over.
+    L { x: ShapeId, cache: Option<NlProv>, p: usize, reuse: u8 },
     A { x: ShapeId, y: ShapeId, slot: Option<Option<AgId>>, p: usize, cross: bool },
 }
 
@@ -169,6 +173,8 @@ impl Act {
             match s.as_str() {
                 "none" => "none",
                 "fresh" => "fresh",
+                "reuse" => "reuse",
+                "reuse_self" => "reuse_self",
                 "slot" => "slot",
                 _ => machinery_error("bad cache mode in replay"),
             }
@@ -271,12 +277,18 @@ impl World {
     }
     fn call_label(&self, c: &Call) -> String {
         match c {
-            Call::L { x, cache, p } => format!(
+            Call::L { x, cache, p, reuse } => format!(
                 "L[P{p}]({}; cache={})",
                 self.label(*x),
-                match cache {
-                    None => "none".to_string(),
-                    Some(n) => format!("prep[P{}] for L({})", n.p, self.label(n.x)),
+                match (cache, reuse) {
+                    (None, _) => "none".to_string(),
+                    (Some(n), 0) => format!("prep[P{}] for L({})", n.p, self.label(n.x)),
+                    (Some(n), 1) => format!(
+                        "circuit + verifier_result + prep[P{}] built once for another proof of the shape {}",
+                        n.p,
+                        self.label(n.x)
+                    ),
+                    (Some(n), _) => format!("circuit + verifier_result + prep[P{}] built once for this very proof", n.p),
                 }
             ),
             Call::A { x, y, slot, p, cross } => format!(
@@ -310,7 +322,14 @@ struct Executed {
 /// Executes one call on a worker thread.
 fn run_call(w: &World, c: &Call) -> Result<Executed, String> {
     match c {
-        Call::L { x, cache, p } => {
+        Call::L { x, p, reuse, .. } if *reuse > 0 => {
+            // built on the first value instance (control: on the subject itself), proved over the last one
+            let xs = w.subject(*x);
+            let builder = if *reuse == 1 { w.material(*x) } else { xs.clone() };
+            let o = exec_l_reuse(&w.env, &builder, &xs, *p)?;
+            Ok(Executed { o, slot_changed: false, slot_key_after: None })
+        }
+        Call::L { x, cache, p, .. } => {
             // the cache is prepared on the first value instance, the call runs on the last one
             let xs = w.subject(*x);
             let mat = cache.map(|n| (w.material(n.x), n.p));
@@ -370,7 +389,8 @@ fn absorb(w: &mut World, c: &Call, e: Executed, hist: Vec<Act>, level: usize) ->
 fn clauses(w: &World, c: &Call, s: &Summary) -> Vec<(String, String)> {
     let f = &s.facts;
     let kind = match c {
-        Call::L { .. } => "next_layer",
+        Call::L { reuse: 0, .. } => "next_layer",
+        Call::L { .. } => "next_layer_reused_circuit",
         Call::A { cross: false, .. } => "aggregation",
         Call::A { cross: true, .. } => "aggregation_cross",
     };
@@ -438,6 +458,8 @@ fn enabled(s: &State, info: &StateInfo, al: &Alphabet) -> Vec<Act> {
     for x in &s.proofs {
         v.push(Act::L { x: r(x), cache: "none" });
         v.push(Act::L { x: r(x), cache: "fresh" });
+        v.push(Act::L { x: r(x), cache: "reuse" });
+        v.push(Act::L { x: r(x), cache: "reuse_self" });
         if s.nl.is_some() {
             v.push(Act::L { x: r(x), cache: "slot" });
         }
@@ -468,14 +490,19 @@ fn deref(info: &StateInfo, r: &Ref) -> Option<ShapeId> {
 fn resolve(s: &State, info: &StateInfo, a: &Act) -> Option<Call> {
     match a {
         Act::P { .. } => None,
-        Act::L { x, cache } => {
+        Act::L { x, cache: cache_mode } => {
             let x = deref(info, x)?;
-            let cache = match *cache {
+            let cache = match *cache_mode {
                 "none" => None,
-                "fresh" => Some(NlProv { x, p: s.p }),
+                "fresh" | "reuse" | "reuse_self" => Some(NlProv { x, p: s.p }),
                 _ => Some(s.nl?),
             };
-            Some(Call::L { x, cache, p: s.p })
+            let reuse = match *cache_mode {
+                "reuse" => 1,
+                "reuse_self" => 2,
+                _ => 0,
+            };
+            Some(Call::L { x, cache, p: s.p, reuse })
         }
         Act::A { x, y, cache, cross } => {
             let (x, y) = (deref(info, x)?, deref(info, y)?);
@@ -539,11 +566,16 @@ fn main() {
             sc(&["B0"], 2, 3, false),
             // a child whose prover reduced its ALU lanes (stark_common != the prover data it came with)
             sc(&["B2"], 1, 2, false),
+            // L-reuse over two children of one shape and different wiring (other preprocessed commitment)
+            sc(&["W0"], 1, 1, false),
         ]
     } else {
         vec![
             // wider alphabet (second batch shape, `_cross` entry point), same depth as quick
             sc(&["U0", "U1", "B0", "B1"], 3, 2, true),
+            // wiring-variant children (two sizes) next to the unit circuit: L-reuse over them, over
+            // their layers and aggregations, under two parameter sets
+            sc(&["W0", "W1", "B0"], 2, 2, false),
             // everything the quick tier does, one step deeper (takes what is left of the budget)
             sc(&["U0", "U1", "B0"], 3, 3, false),
         ]
@@ -703,6 +735,16 @@ fn main() {
         if in_alphabet {
             if ids[0] != ids[1] {
                 machinery_error(&format!("the two value instances of base {name} do not share a shape id"));
+            }
+            if name.starts_with('W') {
+                // the point of the wiring variants: one shape id, two preprocessed commitments
+                let cd = |o: &ProofObj| match o {
+                    ProofObj::Batch { proof, .. } => objs::common_digest(&proof.stark_common),
+                    _ => String::new(),
+                };
+                if cd(&w.shapes[ids[0]].insts[0]) == cd(&w.shapes[ids[0]].insts[1]) {
+                    machinery_error(&format!("the two wiring variants of base {name} carry the same preprocessed commitment"));
+                }
             }
             search_objs.push((name.clone(), w.material(ids[0])));
             init_refs.insert(ids[0], Ref::Base(name.clone()));
@@ -869,7 +911,9 @@ fn main() {
             let cls = format!(
                 "{}:{}",
                 match call {
-                    Call::L { .. } => "L",
+                    Call::L { reuse: 0, .. } => "L",
+                    Call::L { reuse: 1, .. } => "Lreuse",
+                    Call::L { .. } => "Lreuse_self",
                     Call::A { cross: false, .. } => "A",
                     Call::A { cross: true, .. } => "Ax",
                 },
@@ -937,7 +981,7 @@ fn main() {
     for c in &w.order {
         let s = &w.memo[c];
         let twin = match c {
-            Call::L { x, cache: Some(_), p } if s.facts.same_circuit => Some(Call::L { x: *x, cache: None, p: *p }),
+            Call::L { x, cache: Some(_), p, .. } if s.facts.same_circuit => Some(Call::L { x: *x, cache: None, p: *p, reuse: 0 }),
             Call::A { x, y, slot: Some(sl), p, cross } if sl.is_none() || s.facts.same_circuit => {
                 Some(Call::A { x: *x, y: *y, slot: None, p: *p, cross: *cross })
             }
@@ -947,7 +991,11 @@ fn main() {
         let Some(t) = w.memo.get(&twin) else { continue };
         compared += 1;
         if (s.verdict == Verdict::Good) != (t.verdict == Verdict::Good) {
-            let kind = if matches!(c, Call::L { .. }) { "next_layer" } else { "aggregation" };
+            let kind = match c {
+                Call::L { reuse: 0, .. } => "next_layer",
+                Call::L { .. } => "next_layer_reused_circuit",
+                _ => "aggregation",
+            };
             violations.push((
                 s.level,
                 usize::MAX,
@@ -1030,6 +1078,25 @@ fn main() {
     for h in state_samples {
         samples.push(json!({"state_history": h}));
     }
+    let mut reuse_ev = BTreeMap::new();
+    for c in &w.order {
+        if let Call::L { reuse, .. } = c {
+            if *reuse > 0 {
+                let s = &w.memo[c];
+                let k = format!(
+                    "{}|children's preprocessed commitments {}|{}",
+                    if *reuse == 1 { "built for another proof of the shape" } else { "built for the same proof (control)" },
+                    match s.facts.reuse_commitments_differ {
+                        Some(true) => "differ",
+                        Some(false) => "equal",
+                        None => "n/a (uni-STARK)",
+                    },
+                    s.verdict.tag()
+                );
+                *reuse_ev.entry(k).or_insert(0u64) += 1;
+            }
+        }
+    }
     let total_secs: f64 = w.memo.values().map(|s| s.secs).sum();
     let coverage = json!({
         "states": states_total as u64 + boundary_counts.states,
@@ -1037,6 +1104,7 @@ fn main() {
         "bfs_states": states_total,
         "bfs_transitions": bfs_transitions,
         "config_boundary": boundary_ev,
+        "l_reuse_calls": reuse_ev,
         "traces_validated_against_impl": transitions,
         "state_graph_edges": edges,
         "param_switch_edges": p_edges,
